@@ -179,6 +179,58 @@ namespace c18
         };
     }
 
+    // operator== / operator!= over a matrix of element types (ordinary, larger than their alignment, and over-aligned relative to the allocator's
+    // Align - no storage is requested here, so Align < alignof(T) is harmless) x alignments: equal iff the Align arguments are equal
+    namespace
+    {
+        template <class T1, size_t A1, class T2, size_t A2>
+        bool eq_wrong()
+        {
+            xsimd::aligned_allocator<T1, A1> a;
+            xsimd::aligned_allocator<T2, A2> b;
+            const bool want = A1 == A2;
+            return (a == b) != want || (a != b) == want || (b == a) != want;
+        }
+        template <class T1, class T2, size_t A1>
+        bool eq_row_wrong()
+        {
+            return eq_wrong<T1, A1, T2, 8>() || eq_wrong<T1, A1, T2, 16>() || eq_wrong<T1, A1, T2, 32>() || eq_wrong<T1, A1, T2, 64>() || eq_wrong<T1, A1, T2, 256>() || eq_wrong<T1, A1, T2, 4096>();
+        }
+        template <class T1, class T2>
+        bool eq_pair_wrong()
+        {
+            return eq_row_wrong<T1, T2, 8>() || eq_row_wrong<T1, T2, 16>() || eq_row_wrong<T1, T2, 32>() || eq_row_wrong<T1, T2, 64>() || eq_row_wrong<T1, T2, 256>() || eq_row_wrong<T1, T2, 4096>();
+        }
+        template <class T1>
+        const char* eq_type_wrong()
+        {
+            if (eq_pair_wrong<T1, char>())
+                return "char";
+            if (eq_pair_wrong<T1, double>())
+                return "double";
+            if (eq_pair_wrong<T1, long double>())
+                return "long double";
+            if (eq_pair_wrong<T1, std::complex<double>>())
+                return "std::complex<double>";
+            if (eq_pair_wrong<T1, Over64>())
+                return "alignas(64) struct";
+            return nullptr;
+        }
+    }
+    std::string eq_matrix_problem()
+    {
+        const char* other;
+        if ((other = eq_type_wrong<char>()))
+            return std::string("eq-relation: aligned_allocator<char, A1> vs aligned_allocator<") + other + ", A2>: operator== / != is not 'A1 == A2' for some A1, A2 in {8,16,32,64,256,4096}";
+        if ((other = eq_type_wrong<long double>()))
+            return std::string("eq-relation: aligned_allocator<long double, A1> vs aligned_allocator<") + other + ", A2>: operator== / != is not 'A1 == A2' for some A1, A2 in {8,16,32,64,256,4096}";
+        if ((other = eq_type_wrong<Over64>()))
+            return std::string("eq-relation: aligned_allocator<alignas(64) struct, A1> vs aligned_allocator<") + other + ", A2>: operator== / != is not 'A1 == A2' for some A1, A2 in {8,16,32,64,256,4096}";
+        if ((other = eq_type_wrong<Pod24>()))
+            return std::string("eq-relation: aligned_allocator<24-byte POD, A1> vs aligned_allocator<") + other + ", A2>: operator== / != is not 'A1 == A2' for some A1, A2 in {8,16,32,64,256,4096}";
+        return "";
+    }
+
     // static facts about the default allocator (evaluated once per run by the harness through this hook)
     std::string default_alignment_problem()
     {
